@@ -249,7 +249,16 @@ func genC04XPath(r *core.Rand, names []string, rootName string, isJSON bool) c04
 	default:
 		x.base = "/" + rootName + "//" + name()
 	}
-	lit := func() string { return "'" + r.Pick("x", "y", "1", "2", "10", "") + "'" }
+	lit := func() string {
+		if r.Chance(1, 4) {
+			// literals that contain the other quote character or brackets (the reader strips the last predicate textually)
+			return r.Pick(`"it's"`, `'q"q'`, `']'`, `"["`, `"']"`, `'["'`, `"x]"`)
+		}
+		if r.Chance(1, 4) {
+			return `"` + r.Pick("x", "y", "1", "2", "10", "") + `"`
+		}
+		return "'" + r.Pick("x", "y", "1", "2", "10", "") + "'"
+	}
 	pred := func() string {
 		switch r.Intn(10) {
 		case 0:
@@ -303,19 +312,64 @@ func runC04(c *core.Ctx) {
 	var dom *xmlquery.Node
 	names := []string{"a", "b", "c", "d"}
 	rootName := ""
+	var forced *c04XPath
 	if isJSON {
 		format = "json"
 		ids := 0
-		v := gen.GenJSONObj(r, gen.JSONOpts{MaxDepth: r.Range(2, 6), MaxFan: r.Range(2, 5), KeyAlphabet: names, IDs: &ids}, 0)
+		keys := names
+		if r.Chance(1, 3) {
+			// property names are arbitrary strings: names that look like paths of the other names, or like predicates
+			keys = append(append([]string{}, names...), "a/b", "b/c", "a/b/c", "c/d", "a[1]", "b c")
+			c.Inc("json_docs_with_pathlike_keys")
+		}
+		v := gen.GenJSONObj(r, gen.JSONOpts{MaxDepth: r.Range(2, 6), MaxFan: r.Range(2, 5), KeyAlphabet: keys, IDs: &ids}, 0)
 		if r.Chance(1, 8) {
-			v = gen.GenJSON(r, gen.JSONOpts{MaxDepth: 3, MaxFan: 4, KeyAlphabet: names, IDs: &ids}, 0) // any top-level value
+			v = gen.GenJSON(r, gen.JSONOpts{MaxDepth: 3, MaxFan: 4, KeyAlphabet: keys, IDs: &ids}, 0) // any top-level value
+		}
+		if len(keys) > len(names) && v.Kind == gen.JObj && r.Chance(1, 2) {
+			// the genuine nesting n1 -> n2 -> n3 next to a single property of n1 that is named "n2/n3", either one first; the first
+			// query of this case asks for /n1/n2/n3
+			n1, n2, n3 := names[r.Intn(4)], names[r.Intn(4)], names[r.Intn(4)]
+			setKey := func(o *gen.JV, k string, val *gen.JV, front bool) {
+				for i := range o.Keys {
+					if o.Keys[i] == k {
+						o.Vals[i] = val
+						return
+					}
+				}
+				if front && len(o.Keys) > 0 {
+					// right after "id"
+					o.Keys = append([]string{o.Keys[0], k}, o.Keys[1:]...)
+					o.Vals = append([]*gen.JV{o.Vals[0], val}, o.Vals[1:]...)
+					return
+				}
+				o.Keys, o.Vals = append(o.Keys, k), append(o.Vals, val)
+			}
+			leaf := func() *gen.JV {
+				if r.Bool() {
+					return &gen.JV{Kind: gen.JStr, S: "x"}
+				}
+				return gen.GenJSONObj(r, gen.JSONOpts{MaxDepth: 2, MaxFan: 2, KeyAlphabet: names, IDs: &ids}, 1)
+			}
+			o2 := gen.GenJSONObj(r, gen.JSONOpts{MaxDepth: 2, MaxFan: 2, KeyAlphabet: names, IDs: &ids}, 1)
+			setKey(o2, n3, leaf(), r.Bool())
+			o1 := gen.GenJSONObj(r, gen.JSONOpts{MaxDepth: 2, MaxFan: 2, KeyAlphabet: keys, IDs: &ids}, 1)
+			slashFirst := r.Bool()
+			setKey(o1, n2, o2, !slashFirst)
+			setKey(o1, n2+"/"+n3, leaf(), slashFirst)
+			if r.Chance(1, 3) {
+				setKey(o1, n2+"/"+names[r.Intn(4)], leaf(), r.Bool())
+			}
+			setKey(v, n1, o1, r.Bool())
+			forced = &c04XPath{base: r.Pick("/"+n1+"/"+n2+"/"+n3, "/"+n1+"/"+n2+"/*", "//"+n2+"/"+n3, "/*/"+n2+"/"+n3)}
+			c.Inc("json_docs_with_slash_key_next_to_genuine_nesting")
 		}
 		// make scalar values matchable by the predicates
 		var fix func(x *gen.JV)
 		fix = func(x *gen.JV) {
 			switch x.Kind {
 			case gen.JStr:
-				x.S = r.Pick("x", "y", "1", "2", "10", "", "xy")
+				x.S = r.Pick("x", "y", "1", "2", "10", "", "xy", "it's", `q"q`, "]", "[", "']", "x]")
 			case gen.JNum:
 				x.Num = r.Pick("1", "2", "10", "0", "3.5")
 			}
@@ -339,7 +393,7 @@ func runC04(c *core.Ctx) {
 		rootName = names[r.Intn(len(names))]
 	} else {
 		o := gen.XMLOpts{MaxDepth: r.Range(2, 6), MaxFan: r.Range(2, 5), Names: names, Namespaces: r.Chance(1, 4), Mixed: r.Chance(1, 2), Noise: r.Chance(1, 4),
-			AttrProb: 4, TextValues: []string{"x", "y", "1", "2", "10", "xy"}}
+			AttrProb: 4, TextValues: []string{"x", "y", "1", "2", "10", "xy", "it's", `q"q`, "]", "[", "']", "x]"}}
 		root := gen.GenXML(r, o)
 		doc = gen.EncodeXML(r, root, r.Chance(1, 3))
 		m, err := ref.BuildXMLMirror([]byte(doc))
@@ -355,6 +409,12 @@ func runC04(c *core.Ctx) {
 	}
 	for q := 0; q < 6; q++ {
 		xp := genC04XPath(r, names, rootName, isJSON)
+		if q == 0 && forced != nil {
+			xp.base = forced.base
+			if r.Bool() {
+				xp.preds = nil
+			}
+		}
 		full := xp.full()
 		var cands, matches []*xmlquery.Node
 		var err error
